@@ -66,7 +66,7 @@ func (c11) Gen(t *Tape, tier string, run int) interface{} {
 		targets = strings.Split(only, ",") // triage aid
 	}
 	c := &c11Case{Target: targets[t.Draw("work", len(targets))], GenSeed: uint32(t.Draw("work", 1<<30)), RD: t.Pick("work", 1, 2, 4), Chunk: t.Pick("work", 0, 0, 2, 1), Kind: ReaderKinds[t.Draw("work", 2)]}
-	kinds := []string{"bitflip", "bitflip", "bitflip", "subst", "subst", "truncate", "zero-sector", "misdirect", "dup-tail", "drop-bytes", "dup-bytes", "set-delim", "ins-delim", "rec-trim", "rec-trim", "zero-number"}
+	kinds := []string{"bitflip", "bitflip", "bitflip", "subst", "subst", "truncate", "zero-sector", "misdirect", "dup-tail", "drop-bytes", "dup-bytes", "set-delim", "ins-delim", "rec-trim", "rec-trim", "zero-number", "aux-retype"}
 	// structure-aware weighting: text formats get more delimiter and number
 	// edits, binary index formats more length-field edits
 	switch c.Target {
@@ -74,6 +74,8 @@ func (c11) Gen(t *Tape, tier string, run int) interface{} {
 		kinds = []string{"bitflip", "subst", "truncate", "drop-bytes", "dup-bytes", "set-delim", "ins-delim", "zero-number", "zero-number", "zero-number", "dup-tail"}
 	case "bai", "csi", "tabix":
 		kinds = append(kinds, "int32-edit", "int32-edit", "int32-edit")
+	case "bam-inner":
+		kinds = append(kinds, "aux-retype", "aux-retype", "aux-retype", "rec-trim", "set-delim")
 	}
 	n := 1 + t.Draw("work", 4)
 	if t.Chance("work", 1, 2) {
@@ -134,6 +136,9 @@ func applyFaults(img []byte, fs []StoreFault) ([]byte, []bool) {
 				v := []uint32{0xffffffff, 0, 0x7fffffff, 0x80000000, 1}[f.B%5]
 				binary.LittleEndian.PutUint32(out[p:], v)
 			}
+		case "aux-retype":
+			// structural, BAM streams only (see bamStream); a bit flip elsewhere
+			out[a] ^= 1 << uint(f.B%8)
 		case "zero-number":
 			// a length-field edit for text formats: the decimal number at or
 			// after position a becomes 0
@@ -194,7 +199,11 @@ func c11Records(t *Tape, h HdrSpec, n int) []RecSpec {
 }
 
 func genValid(target string, seed uint32) []byte {
-	t := NewTape(uint64(seed), "C11-gen-"+target, 0)
+	tapeName := target
+	if target == "fasta-for-fai" {
+		tapeName = "fai" // the FASTA file the fai target's index was built from
+	}
+	t := NewTape(uint64(seed), "C11-gen-"+tapeName, 0)
 	switch target {
 	case "bgzf":
 		fs := genFileSpec(t, false)
@@ -314,7 +323,7 @@ func genValid(target string, seed uint32) []byte {
 			}
 		}
 		return buf.Bytes()
-	case "fasta", "fai":
+	case "fasta", "fai", "fasta-for-fai":
 		var fa bytes.Buffer
 		for i, n := 0, 1+t.Draw("work", 4); i < n; i++ {
 			fmt.Fprintf(&fa, ">seq%d some description\n", i)
@@ -329,7 +338,7 @@ func genValid(target string, seed uint32) []byte {
 				fa.WriteString("\n")
 			}
 		}
-		if target == "fasta" {
+		if target == "fasta" || target == "fasta-for-fai" {
 			return fa.Bytes()
 		}
 		idx, err := fai.NewIndex(bytes.NewReader(fa.Bytes()))
@@ -626,6 +635,20 @@ func decode(x *Exec, c *c11Case, file *File) (outcome string) {
 				r.Position(r.Length - 1)
 			}
 		}
+		// use the (possibly altered) index the way it is meant to be used:
+		// to read sequences out of the FASTA file it was made from
+		fasta := genValid("fasta-for-fai", c.GenSeed)
+		f := fai.NewFile(bytes.NewReader(fasta), idx)
+		for name, r := range idx {
+			if s, err := f.Seq(name); err == nil {
+				boundedDrain(s, r.Length, "fai Seq.Read")
+			}
+			if r.Length > 2 {
+				if s, err := f.SeqRange(name, 1, r.Length-1); err == nil {
+					boundedDrain(s, r.Length, "fai SeqRange Read")
+				}
+			}
+		}
 		return fmt.Sprintf("records %d", len(idx))
 	case "fasta":
 		idx, err := fai.NewIndex(rdr)
@@ -678,6 +701,28 @@ func decode(x *Exec, c *c11Case, file *File) (outcome string) {
 	panic("c11: unknown target " + c.Target)
 }
 
+// boundedDrain reads r to its end; a reader that neither ends nor makes
+// progress within a generous number of calls is reported (as a panic inside
+// the simulation, which the harness turns into a violation) instead of
+// spinning forever.
+func boundedDrain(r io.Reader, expect int, what string) {
+	if expect < 0 || expect > 1<<20 {
+		expect = 1 << 20
+	}
+	buf := make([]byte, 64)
+	total := 0
+	for calls := 0; ; calls++ {
+		n, err := r.Read(buf)
+		total += n
+		if err != nil {
+			return
+		}
+		if calls > 4*expect+1000 || total > 64*expect+100000 {
+			panic(fmt.Sprintf("no progress or no end: %s returned %d bytes in %d calls without an error (sequence length %d)", what, total, calls, expect))
+		}
+	}
+}
+
 func errKind(err error) string {
 	if err == nil {
 		return "ok"
@@ -712,6 +757,22 @@ func bamStream(seed uint32, faults []StoreFault) []byte {
 	for i, r := range recs {
 		enc := r.EncodeBAM()
 		for _, f := range faults {
+			if f.Kind == "aux-retype" && f.A%len(recs) == i && len(r.Aux) > 0 {
+				// a type edit: the type byte (or, for B arrays, the subtype
+				// byte) of one aux field becomes another type letter
+				off := len(enc)
+				for k := len(r.Aux) - 1; k >= 0; k-- {
+					_, raw := r.Aux[k].value()
+					off -= len(raw)
+					if k == (f.B>>4)%len(r.Aux) {
+						pos := off + 2
+						if r.Aux[k].Typ == "B" && f.B&1 == 1 {
+							pos = off + 3
+						}
+						enc[pos] = "AcCsSiIfZHB"[(f.B>>8)%11]
+					}
+				}
+			}
 			if f.Kind == "rec-trim" && f.A%len(recs) == i {
 				k := 1 + f.B%8
 				if k < len(enc)-4 {
@@ -758,7 +819,7 @@ func (c11) Exec(x *Exec, ci interface{}) *Verdict {
 		valid = wrapBAM(bamStream(c.GenSeed, nil), c.GenSeed)
 		var rest []StoreFault
 		for _, f := range c.Faults {
-			if f.Kind != "rec-trim" {
+			if f.Kind != "rec-trim" && f.Kind != "aux-retype" {
 				rest = append(rest, f)
 			}
 		}
